@@ -333,6 +333,9 @@ func c15Exec(r *vf.Run, variant, maxLen int, c *vf.Chooser) (keys, whats []strin
 		if srv.validSigShown {
 			why = "valid-signature-then-extra-steps"
 		}
+		if len(srv.sent) == 1 {
+			why = "bare-235-as-first-server-message"
+		}
 		add(fmt.Sprintf("accepted-unauthenticated-server/%s/server-first-answered=%v", why, hasFirst && srv.firstAnswered),
 			fmt.Sprintf("%s: Auth returned nil although the server never proved knowledge of the password in this exchange; server messages: %s", c15Variants[variant], desc))
 	}
@@ -355,9 +358,9 @@ func init() {
 		Run: func(r *vf.Run) {
 			r.SetRule("every server message sequence up to length L over the 10-symbol alphabet {valid server-first, server-first with foreign/truncated nonce, malformed server-first, valid server-final, server-final of another exchange/key, server-final over empty state, empty challenge, junk, 235, 535}, chosen on the fly after each client message, through smtp.Client.Auth on the synchronous connection, for SCRAM-SHA-1/-256 and both PLUS variants; reference automaton decides which successes are legitimate; distinct by (variant, sequence)")
 			r.Assume("PLUS variants run over a fabricated TLS 1.2 connection state (tls-unique); the real handshake is covered by C14", "password/user are ASCII")
-			maxLen := 4
+			maxLen := 5
 			if r.Thorough {
-				maxLen = 5
+				maxLen = 6
 			}
 			r.Extra("max_sequence_length", maxLen)
 			for v := 0; v < 4; v++ {
@@ -396,7 +399,7 @@ func init() {
 				r.HarnessError("bad case: %v", err)
 				return
 			}
-			keys, whats, desc := c15Exec(r, k.Variant, 5, vf.NewChooser(k.Prefix))
+			keys, whats, desc := c15Exec(r, k.Variant, 6, vf.NewChooser(k.Prefix))
 			r.Eval(1, true)
 			fmt.Printf("  %s server messages: %s\n", c15Variants[k.Variant], desc)
 			for i, key := range keys {
